@@ -350,14 +350,15 @@ MANIFEST = {
 		'Round trip, exact size and factory agreement are Lean theorems about a schema-indexed codec interpreter, for ALL well-formed schemas, all types, '
 		'all admissible values and any trailing bytes (Properties/C01.lean: roundtrip / decode_encode / size_eq_length / factory_agrees, built from integer, '
 		'array (counted, keyed, fill, aligned) and struct-level laws by induction, no size bounds), instantiated for the two shipped schema sets by '
-		'kernel-checked instance theorems (symbol_wf, nem_wf) over Lean terms regenerated from the .cats text on every run. The interpreter is tied to the '
+		'kernel-checked instance theorems (symbol_wf, nem_wf, symbol_wfd, nem_wfd) over Lean terms regenerated from the .cats text on every run; decode-encode-decode '
+		'stability is a theorem for every byte string under one decidable hypothesis (ded_stable_partial: re-computed sizes fit their widths; false without it). The interpreter is tied to the '
 		"generated classes by a differential run over every type of both modules (values, byte mutants located with the model's layout), and round trip, "
 		'size, factory agreement and decode-encode-decode stability are also evaluated directly on the real objects.'
 	),
 	'level_note': (
 		'Trusted: Lean kernel + {propext, Classical.choice, Quot.sound}; hand-written interpreter tied to the Python classes by differential execution only; '
-		'translator translate/cats.py (cross-checked against catparser in C02); decode-encode-decode stability is checked on the implementation by execution, '
-		'not proved; counted arrays above 100000 elements are outside the modelled domain; see lean/SymbolVerif/Proofs/Codec/STATUS.md for what the theorem excludes.'
+		'translator translate/cats.py (cross-checked against catparser in C02); decode-encode-decode stability needs the `fit` hypothesis (for shipped types it can '
+		'only fail on inputs of 4 GiB and more); counted arrays above 100000 elements are outside the modelled domain; see lean/SymbolVerif/Proofs/Codec/STATUS.md for what the theorem excludes.'
 	),
 	'technique': 'Lean 4 theorems over a schema-indexed codec interpreter + differential correspondence with the generated Python codecs',
 }
